@@ -1,19 +1,9 @@
 //go:build verif
 
-// Machine-checked contracts for package macho (comment-only; see /verif/DESIGN.md).
+// Machine-checked contracts for package dmg (comment-only; see /verif/DESIGN.md).
 
-package macho
+package dmg
 
-//@ func verifyMacho
-//@   property C11 C02
-//@   nopanic
-//@   requires r != nil
-//@   ghost ok bool = false
-//@   before call machos.Verify(src, _, _, skip): assert @image_verified_with_the_callers_digest_choice src == r && skip == opts.NoDigests
-//@   on call machos.Verify(_, _, _, _) ret (s, e): ok = (e == nil)
-//@   ensures @signature_reported_only_for_a_verified_image ret1 == nil ==> ok && ret0 != nil
-//@   loop 0 sig "for _, unk := range sig.Blob.Unknowns" invariant sig != nil && sig.Blob != nil && forall(k, 0, len(sig.Blob.Unknowns), len(sig.Blob.Unknowns[k]) >= 8)
-//@
 //@ func (*transformer).GetReader$1
 //@   property C09
 //@   ghost terr error = nil
